@@ -245,6 +245,9 @@ func (s *Solver) CheckT(pc []*Term, extra *Term, vars []*Term, wantModel bool, q
 		}
 	}
 	d := time.Since(t0)
+	if dir := os.Getenv("GOSX_DUMP_SLOW"); dir != "" && d > 2*time.Second {
+		os.WriteFile(fmt.Sprintf("%s/q-%d-%d.smt2", dir, os.Getpid(), s.Stats.Queries), s.Script(pc, extra, nil, false), 0o644)
+	}
 	s.Stats.Queries++
 	s.Stats.Time += d
 	if d > s.Stats.MaxQuery {
